@@ -47,6 +47,15 @@ MUTATION_DRILLS = [
      "fired": "VIOLATION property=C11 with a failing kill point (found_failing_input=true): crash-state-outside-commit-prefixes on all three schemas "
               "(tick present without the entry / first entry of a two-entry commit without the second); protocol:<schema> fires as well "
               "(a discarded commit stays in the store, so later counts differ from the model)"},
+    {"mutation": "(independently seeded) StartSession() moved from the top of Memory::OnCommit into CommitEntry::Save: a commit that memorises k > 1 "
+                 "phrases separately spans k transactions and the first k-1 are flushed during the commit",
+     "ran": "scratch worktree + copy of /verif: VERIF_REPO=/var/tmp/wt-c11 VERIF_CACHE=/var/tmp/rime-verif-c11 bin/check C11 quick",
+     "test_suite_with_mutation": "passes (ctest, guard off)",
+     "fired": "first attempt: check-crashed (KeyError in judge: the real code issued more calls than the model) - repaired: outputs that do not have "
+              "the model's shape are reported, never raised. Now VIOLATION property=C11 with a failing kill point (found_failing_input=true) on all "
+              "three schemas, e.g. vtable `K 1 bbc/abc` + `F 1`, kill after call 42: `bb`/`c` entries of the commit durable (tick 7), `abc` entry "
+              "missing; protocol:<schema> as well. The generator now makes 2- and 3-phrase commits (list punctuation between phrases) on every schema "
+              "(coverage.protocol.commits_with_several_memorised_phrases)"},
 ]
 
 
@@ -145,16 +154,19 @@ def run(ctx):
         return
     k = 0
     proto_mism, unmodelled, aborted = [], [], []
-    n_ops = n_events = n_commit_events = 0
+    n_ops = n_events = n_commit_events = n_multi = 0
     for h in hists:
         h.model = {}
         for n in h.names:
             h.model[n] = mres[k]
             k += 1
             d = h.dbs[n]
+            for key in ("ops", "S", "P"):
+                h.model[n].setdefault(key, {} if key != "ops" else [])
             n_ops += len(d.ops)
             n_events += len(d.events)
             n_commit_events += sum(1 for e in d.events if e[0] == "C")
+            n_multi += sum(1 for x in d.event_saves if x >= 2)
             if d.unmodelled:
                 unmodelled.append((h, n, d.unmodelled[0]))
             if d.ops != h.model[n]["ops"]:
@@ -190,7 +202,15 @@ def run(ctx):
     nontrivial = set()
 
     def judge(h, kind, p, rc, dump, derr, klog_order, expect_rc, R):
-        """compare one killed run with the model and with the R-states"""
+        """compare one killed run with the model and with the R-states; output of the
+        implementation that does not have the expected shape is a difference to report"""
+        try:
+            judge1(h, kind, p, rc, dump, derr, klog_order, expect_rc, R)
+        except Exception:
+            import traceback
+            run_anomaly.append((h, kind, p, "the run's output could not be interpreted: " + traceback.format_exc()[-1500:]))
+
+    def judge1(h, kind, p, rc, dump, derr, klog_order, expect_rc, R):
         stats["kill_runs"] += 1
         if kind != "op" and rc == 0 and expect_rc == 137:
             # LevelDB removes obsolete files from a background thread: the number of
@@ -221,9 +241,16 @@ def run(ctx):
                 stats["metadata_incomplete_after_kill"] += 1
             pdb = list(klog_order).count(n)
             mod = h.model[n]
-            hi = mod["P"][pdb][0]
-            lo = mod["P"][pdb - 1][0] if (kind != "op" and n == active and pdb > 0) else hi
-            in_set = any(mod["S"][j] == recs for j in range(lo, hi + 1))
+            if pdb in mod["P"] and (pdb == 0 or pdb - 1 in mod["P"]):
+                hi = mod["P"][pdb][0]
+                lo = mod["P"][pdb - 1][0] if (kind != "op" and n == active and pdb > 0) else hi
+                in_set = any(mod["S"].get(j) == recs for j in range(lo, hi + 1))
+            else:
+                # the real code issued more calls than the model has for this history (already
+                # reported as a protocol difference): only the implementation-only oracle applies
+                stats["kills_beyond_model_calls"] = stats.get("kills_beyond_model_calls", 0) + 1
+                lo = hi = None
+                in_set = None
             # implementation-only oracle
             ks = range(q if q >= 0 else max(m, 0), min(m + 1, len(h.script)) + 1)
             # (entries, counts and the tick are what the property speaks about; the other
@@ -231,8 +258,8 @@ def run(ctx):
             in_R = any(R[kk] is not None and _view(R[kk][n]) == _view(recs) for kk in ks)
             if not in_R:
                 outside.append((h, kind, p, n, _view(recs), [_view(R[kk][n]) for kk in ks if R[kk] is not None], load))
-            elif not in_set:
-                model_diff.append((h, kind, p, n, recs, mod["S"][lo], mod["S"][hi]))
+            elif in_set is False:
+                model_diff.append((h, kind, p, n, recs, mod["S"].get(lo), mod["S"].get(hi)))
 
     def sweep_ops(h):
         N = len(h.order)
@@ -259,7 +286,7 @@ def run(ctx):
             if p < N:
                 n = h.order[p]
                 pdb = list(h.order[:p]).count(n)
-                if h.dbs[n].flags[pdb][1] == "1":
+                if pdb < len(h.dbs[n].flags) and h.dbs[n].flags[pdb][1] == "1":
                     stats["in_txn_kills"] += 1
                     nontrivial.add((h.idx, p))
         stats["histories_swept"] += 1
@@ -379,7 +406,7 @@ def run(ctx):
                     if sample_h else []),
         "generator_distribution": gen_stats,
         "protocol": {"histories": len(hists), "db_histories": len(feed), "calls_compared": n_ops, "events_fed_to_model": n_events,
-                     "commit_events": n_commit_events, "mismatching_db_histories": len(proto_mism), "asan_aborts": len(aborted)},
+                     "commit_events": n_commit_events, "commits_with_several_memorised_phrases": n_multi, "mismatching_db_histories": len(proto_mism), "asan_aborts": len(aborted)},
         "crash_sweep": dict(stats, outside_allowed_set=len(outside), differs_from_model=len(model_diff), not_openable=len(not_openable),
                             anomalies=len(run_anomaly)),
         "syscall_sweep": sys_stats,
